@@ -68,9 +68,15 @@ def _c01():
          "bound": "BaseParser::expect_whitespace at any cursor of 3 arbitrary tokens, unwind 5"},
         {"name": "c01::c01b_spaces_6", "tiers": Q, "covers": ["end", "consumed"],
          "bound": "BaseParser::spaces at any cursor of 6 arbitrary tokens"},
+        {"name": "c01::c01c_escaped_char_7", "tiers": Q, "flags": ST, "covers": ["end", "err", "six_digits_and_space", "replacement_char"],
+         "bound": "BaseParser::consume_escaped_char on a backslash + 7 arbitrary tokens: total, decodes the hex run, at most 8 tokens consumed"},
+        {"name": "c01::c01c_escaped_char_2", "tiers": T, "flags": ST, "covers": ["end", "err"],
+         "bound": "consume_escaped_char on a backslash + 2 arbitrary tokens"},
+        {"name": "c01::c01c_escaped_char_0", "tiers": Q, "flags": ST, "covers": ["end"],
+         "bound": "consume_escaped_char on a lone backslash at end of input"},
         {"name": "c18::c19a_relex_2byte_then_ascii", "tiers": Q, "covers": ["end", "text_longer_than_span", "text_fits"],
          "bound": "error-span construction over re-lexed multi-byte text never trips Span::subspan's assertion (span length 0..8)"},
-        {"name": "c16::c16a_clamp_none_px_em", "tiers": Q, "flags": ST, "covers": ["end", "kept_calculation"],
+        {"name": "c16::c16a_clamp_none_px_em", "tiers": Q, "flags": ST + ("--no-memory-safety-checks",), "timeout": 1500, "covers": ["end", "kept_calculation"],
          "bound": "clamp(unitless, px, em): no unit conversion outside the table (panic in Number::convert)"},
     ]
     return {
@@ -79,7 +85,7 @@ def _c01():
         "timeout": {"quick": 900, "thorough": 2400},
         "harnesses": hs,
         "functions": ["value::calculation::SassCalculation::clamp (unit guard before Number::convert)", "parse::sass::SassParser::skip_loud_comment", "parse::base::BaseParser::{whitespace, whitespace_without_comments, "
-                      "scan_comment, skip_silent_comment, skip_loud_comment, expect_whitespace, spaces}", "lexer::Lexer::{next, peek, peek_n, span_at_index}"],
+                      "scan_comment, skip_silent_comment, skip_loud_comment, expect_whitespace, spaces, consume_escaped_char}", "lexer::Lexer::{next, peek, peek_n, span_at_index, new_from_string}"],
         "bounds": "token buffers of the stated length, every token an arbitrary Unicode scalar; unwinding assertions on",
         "stubs": ["std::hash::RandomState::new -> fixed keys (Options::default builds an empty HashMap)",
                   "alloc::fmt::format -> empty string (error message text is not the subject)"],
@@ -179,11 +185,16 @@ def _c15():
           H("c15::c15a_opacity_clamps", "with_alpha / fade_in / fade_out: arbitrary base colour and arbitrary f64 amount",
             covers=("end", "zero_amount")),
           H("c15::c15d_short_hex_iff_symmetrical", "all 2^24 8-bit colours: 3-digit hex chosen iff every channel has equal nibbles",
-            covers=("end", "short"))]
+            covers=("end", "short")),
+          H("c15::c15d_hex_literal_3", "hex literal reader on `#` + 3 arbitrary hex digits (either case): channels are d*17", covers=("end", "parsed"),
+            flags=ST + ("--no-memory-safety-checks",)),
+          H("c15::c15d_hex_literal_4", "`#` + 4 hex digits: #abcd = #aabbccdd", covers=("end", "parsed"), flags=ST + ("--no-memory-safety-checks",)),
+          H("c15::c15d_hex_literal_6", "`#` + 6 hex digits", tiers=T, covers=("end", "parsed"), flags=ST + ("--no-memory-safety-checks",)),
+          H("c15::c15d_hex_literal_8", "`#` + 8 hex digits", tiers=T, covers=("end", "parsed"), flags=ST + ("--no-memory-safety-checks",))]
     from . import engine_f
     d = _simple(hs, ["color::Color::{from_rgba, from_rgba_fn, red, green, blue, alpha, with_alpha, fade_in, fade_out, hue_to_rgb}",
-                     "value::number::{Number::clamp, Number::round, fuzzy_round}", "serializer::Serializer::{is_symmetrical_hex, can_use_short_hex}"],
-                "every f64 argument (full width, symbolic); all 8-bit channel triples; hue_to_rgb on the lattice m1=a/L, m2=b/L, "
+                     "value::number::{Number::clamp, Number::round, fuzzy_round}", "serializer::Serializer::{is_symmetrical_hex, can_use_short_hex}", "parse::value::ValueParser::{parse_hex_color_contents, parse_hex_digit}"],
+                "every f64 argument (full width, symbolic); all 8-bit channel triples; every hex literal of 3/4 (6/8 thorough) digits; hue_to_rgb on the lattice m1=a/L, m2=b/L, "
                 "hue=c/3L (L=32 quick, 256 thorough), every point",
                 "RGB<->HSL/HWB round trips (about 25 double multiplications/divisions per colour do not finish), the named "
                 "colour table (phf), lighten/darken/mix identities, compressed-mode spelling choice",
@@ -201,12 +212,13 @@ def _c16():
     hs = [H("c16::c16b_paren_rules_%s" % o, "outer operator %s, every inner operator, both operand sides, integer leaves in [-4,4], "
             "exact rational evaluation" % o, covers=("end", "lhs_unparenthesised")) for o in ("plus", "minus", "mul", "div")]
     from . import engine_t
-    CL = {"none_px_em": (Q, ("end", "kept_calculation")), "px_in_pt": (Q, ("end", "reduced")), "px_px_px": (Q, ("end", "reduced")),
-          "none_none_none": (Q, ("end", "reduced")), "px_em_px": (Q, ("end",)), "none_px_px": (Q, ("end",)),
-          "px_none_px": (T, ("end",)), "px_px_none": (T, ("end",)), "deg_px_px": (T, ("end",)), "px_in_em": (Q, ("end",)),
+    CL = {"none_px_em": (Q, ("end", "kept_calculation")), "px_in_pt": (Q, ("end", "reduced")), "px_px_px": (T, ("end", "reduced")),
+          "none_none_none": (Q, ("end", "reduced")), "px_em_px": (T, ("end",)), "none_px_px": (Q, ("end",)),
+          "px_none_px": (T, ("end",)), "px_px_none": (T, ("end",)), "deg_px_px": (T, ("end",)), "px_in_em": (T, ("end",)),
           "em_em_em": (T, ("end", "reduced")), "none_px_in": (T, ("end",))}
+    NMS = ST + ("--no-memory-safety-checks",)
     hs += [H("c16::c16a_clamp_" + k, "SassCalculation::clamp(min, value, max) with units %s, magnitudes from {0,1,2,96,-3}" % k.replace("_", ", "),
-             tiers=t, covers=c, flags=ST) for k, (t, c) in CL.items()]
+             tiers=t, covers=c, flags=NMS, timeout=1500) for k, (t, c) in CL.items()]
     return _simple(hs, ["value::calculation::SassCalculation::{clamp, simplify, verify_length, verify_compatible_numbers}", "sass_number::SassNumber::{is_comparable_to, has_compatible_units}", "value::calculation::CalculationArg::parenthesize_calculation_rhs", "common::BinaryOp::precedence "
                         "(left-operand rule of Serializer::write_calculation_arg)"],
                    "operation trees of depth 2 over + - * /; leaves integers in [-4,4]; clamp over the listed unit triples",
@@ -253,6 +265,8 @@ def _c07():
     hs = [H("c07::c07a_fuzzy_equals_laws", "a, b: every double within 3e-11 of a centre in {0, .5, 1, -1, 2.5, 100, 255, -255}",
             covers=("end", "fuzzy_equal_distinct", "unequal"), flags=ST),
           H("c07::c07a_fuzzy_equals_special", "a, b: every pair of doubles (NaN / infinity laws)", covers=("end", "nan", "infs"), flags=ST),
+          H("c07::c07a_fuzzy_equals_transitive", "a, b, c: every double within 3e-11 of a centre: equality is transitive",
+            covers=("end", "three_distinct_equal"), flags=ST),
           H("c07::c07a_fuzzy_order_laws", "same windows: trichotomy of fuzzy <, ==, >", covers=("end", "less", "equal_but_smaller"), flags=ST),
           H("c07::c07a_fuzzy_as_int", "every double (totality), |x| <= 1000 for the value laws", covers=("end", "near_integer", "non_integer"), flags=ST),
           H("c07::c07a_number_predicates", "x in [-1,1], y any double: is_zero/is_positive/is_negative partition, min/max/clamp",
